@@ -150,12 +150,9 @@ theorem c09_facts :
     Facts.readerMatchWord = "word==\"\";cur:=int(pos)-r.file.offset;len(word)>len(r.file.data)-cur;b>=utf8.RuneSelf;b!=r.file.data[cur+i];len(r.file.data)-cur-len(word)==0||!isWordCharacter(r.file.data[cur+len(word)])" ∧
     Facts.readerReadRegexp = "cur:=int(pos)-r.file.offset;cur>=r.file.len;indices==nil" ∧
     Facts.readerReadf = "cur:=int(pos)-r.file.offset;cur>=r.file.len;nextPos==0;value!=nil;nextPos<len(value)||cur+nextPos>r.file.len" ∧
-    Facts.readerRemaining = "return r.file.len-(int(pos)-r.file.offset)" ∧
-    Facts.readerIsEOF = "return int(pos)-r.file.offset>=r.file.len" ∧
-    Facts.wordChar = "{return'a'<=b&&b<='z'||'A'<=b&&b<='Z'||'0'<=b&&b<='9'||b=='_'}" ∧
     Facts.wsNlCond = "(r.file.data[cur]=='\\n'||r.file.data[cur]=='\\f')&&nlPos==0" ∧
     Facts.regexpWrap = "\"^(?:\"+expr+\")\"" :=
-  ⟨by decide, by decide, rfl, rfl, rfl, rfl, rfl, rfl, rfl, rfl, rfl, rfl⟩
+  ⟨by decide, by decide, rfl, rfl, rfl, rfl, rfl, rfl, rfl⟩
 
 theorem c09_facts_wsmodes :
     Facts.wsModeCases = "wsMode==WsNone&&cur>int(pos)-r.file.offset=>returnr.file.Pos(cur),parsley.NewError(pos,wsNoneErr);wsMode==WsSpacesForceNl&&nlPos==0=>returnr.file.Pos(cur),parsley.NewError(r.file.Pos(cur),wsSpacesForceNlErr);wsMode==WsSpaces&&nlPos>0=>returnr.file.Pos(cur),parsley.NewError(nlPos,wsSpacesErr)" :=
